@@ -256,7 +256,8 @@ Section Protocol.
   (* result of the protocol for one task *)
   Record tres := mkTres { r_out : outcome; r_world : world; r_events : list event }.
 
-  Definition run_task (c : config) (E : list edge) (dyn : list (N * dynmark)) (desel : list N)
+  (* [pf]: does the persist hook fire (marker present, all nodes exist, one changed) *)
+  Definition run_task_with (pf : bool) (c : config) (E : list edge) (dyn : list (N * dynmark)) (desel : list N)
              (w : world) (t : task) (f : fault) : tres :=
     let i := tid t in
     (* skipping.pytask_execute_task_setup *)
@@ -264,7 +265,7 @@ Section Protocol.
     else if existsb (fun b => b) (m_skipif t) then mkTres OSkip w []
     else if has_dyn MAncFailed i dyn then mkTres OSkipPrevFailed w []
     (* persist.pytask_execute_task_setup *)
-    else if m_persist t && all_exist E w t && any_changed E w t then mkTres OPersist (record_states E w t) []
+    else if pf then mkTres OPersist (record_states E w t) []
     (* execute.pytask_execute_task_setup *)
     else if has_dyn MWould i dyn then mkTres OWould w []
     else
@@ -286,6 +287,10 @@ Section Protocol.
             then mkTres OSuccess (record_states E w1 t) [Start i; Finish i]
             else mkTres OFail w1 [Start i; Finish i]
       end.
+
+  Definition run_task (c : config) (E : list edge) (dyn : list (N * dynmark)) (desel : list N)
+             (w : world) (t : task) (f : fault) : tres :=
+    run_task_with (m_persist t && all_exist E w t && any_changed E w t) c E dyn desel w t f.
 End Protocol.
 
 (* ---------------------------------------------------------- the build *)
